@@ -68,6 +68,25 @@ pub trait ScopedBitRead: BitRead {
     }
 }
 
+/// Appends the given amount of bits to the buffer. The buffer grows chunk by chunk while the data
+/// arrives, so that a bogus length cannot trigger a huge allocation before anything is read.
+fn read_bits_chunked<T: BitRead + ?Sized>(
+    read: &mut T,
+    buffer: &mut Vec<u8>,
+    bit_len: usize,
+) -> Result<(), Error> {
+    const CHUNK_BYTES: usize = 64 * 1024;
+    let mut remaining_bits = bit_len;
+    while remaining_bits > 0 {
+        let chunk_bits = remaining_bits.min(CHUNK_BYTES * BYTE_LEN);
+        let start = buffer.len();
+        buffer.resize(start + (chunk_bits + BYTE_LEN - 1) / BYTE_LEN, 0u8);
+        read.read_bits_with_len(&mut buffer[start..], chunk_bits)?;
+        remaining_bits -= chunk_bits;
+    }
+    Ok(())
+}
+
 impl<T: BitRead> PackedRead for T {
     /// ITU-T X.691 | ISO/IEC 8825-2:2015, chapter 12
     #[inline]
@@ -275,8 +294,8 @@ impl<T: BitRead> PackedRead for T {
         };
 
         let mut byte_len = (bit_len + 7) / 8;
-        let mut buffer = vec![0u8; byte_len as usize];
-        self.read_bits_with_len(&mut buffer[..], bit_len as usize)?;
+        let mut buffer = Vec::new();
+        read_bits_chunked(self, &mut buffer, bit_len as usize)?;
 
         // fragmentation?
         if fragmentation_possible && bit_len >= LENGTH_16K {
@@ -346,8 +365,8 @@ impl<T: BitRead> PackedRead for T {
             )
         };
 
-        let mut buffer = vec![0u8; byte_len as usize];
-        self.read_bits(&mut buffer[..])?;
+        let mut buffer = Vec::new();
+        read_bits_chunked(self, &mut buffer, byte_len as usize * BYTE_LEN)?;
 
         // fragmentation?
         if fragmentation_possible && byte_len >= LENGTH_16K {
